@@ -124,6 +124,51 @@ type SOpt struct {
 	G *SFlag
 }
 
+// a second child of SLimits (several children of one base)
+type STag struct {
+	SLimits
+	Port *uint16
+	Tags []string
+}
+
+// a child of another base
+type SOwned struct {
+	SMeta
+	N int8
+}
+
+// a second grandchild of SLimits
+type SGrand2 struct {
+	SChild
+	F float32
+	B bool
+}
+
+// unrelated plain structs: no embedded field, no parent
+type SLoose struct {
+	Addr  string
+	Port  *uint16
+	Ratio float32
+	Tags  []string
+}
+
+type SGroup struct {
+	Label   string
+	Members []*SLoose
+	Lookup  map[string]int8
+}
+
+// embedded first field that is NOT a struct (a pointer to one, a defined scalar): never a parent, a field like any other
+type SLink struct {
+	*SMeta
+	K string
+}
+
+type SNamed struct {
+	SLabel
+	N int8
+}
+
 var staticTypes = map[string]reflect.Type{}
 
 // the defined types, in a fixed order
@@ -135,6 +180,8 @@ var staticRoots = []reflect.Type{
 	reflect.TypeOf(SStrMap(nil)), reflect.TypeOf(SAttrs(nil)), reflect.TypeOf(SByLabel(nil)), reflect.TypeOf(SCounts(nil)),
 	reflect.TypeOf(SLimits{}), reflect.TypeOf(SMeta{}), reflect.TypeOf(SItem{}), reflect.TypeOf(SJob{}), reflect.TypeOf(SChild{}),
 	reflect.TypeOf(SGrand{}), reflect.TypeOf(SBoth{}), reflect.TypeOf(SPlain{}), reflect.TypeOf(SHost{}), reflect.TypeOf(SOpt{}),
+	reflect.TypeOf(STag{}), reflect.TypeOf(SOwned{}), reflect.TypeOf(SGrand2{}), reflect.TypeOf(SLoose{}), reflect.TypeOf(SGroup{}),
+	reflect.TypeOf(SLink{}), reflect.TypeOf(SNamed{}),
 }
 
 func init() {
@@ -283,7 +330,7 @@ func structKey(s *Shape) string {
 // ---- the cases of the static family for the model (Model/ReflectNamed.v, Corr/CorrC18.v ncase)
 
 func newNamedCasesFile() *lib.CasesFile {
-	return &lib.CasesFile{Imports: []string{"Model.Base", "Model.Reflect", "Model.ReflectNamed", "Corr.CorrC18"}, Typ: "ncase",
+	return &lib.CasesFile{Imports: []string{"Model.Base", "Model.Reflect", "Model.ReflectNamed", "Model.ReflectTypeSet", "Corr.CorrC18"}, Typ: "ncase",
 		Obligations: map[string]string{"reflect_named_model": "c18n_mismatches ffmt_table cases"}}
 }
 
@@ -305,14 +352,28 @@ func (s *Shape) Mask() string {
 }
 
 func (r *runner) processStatic(cs *Case, o *Obs, toCoq bool) {
-	if !toCoq || r.ncf == nil || o.RegErr != "" || o.WrapErr != "" {
+	if r.ncf == nil || o.RegErr != "" {
+		return
+	}
+	input := map[string]interface{}{"shape": cs.S, "value": cs.V, "history": cs.H}
+	if cs.TS != nil {
+		input["typeset"] = cs.TS
+		// the argument list and the entries of the type set, once per list (always: the list is the input)
+		if r.tsSeen == nil {
+			r.tsSeen = map[string]bool{}
+		}
+		if k := cs.TS.key(); !r.tsSeen[k] && o.TSet != nil {
+			r.tsSeen[k] = true
+			r.ncf.Add(tsCaseTerm(cs.TS, o.TSet), input)
+		}
+	}
+	if !toCoq || o.WrapErr != "" {
 		return
 	}
 	back := "GVOutside"
 	if o.BackErr == "" && !o.BackOutside && o.Back != nil {
 		back = o.Back.Gallina(cs.S)
 	}
-	input := map[string]interface{}{"shape": cs.S, "value": cs.V, "history": cs.H}
 	r.ncf.Add("NCase "+cs.S.Gallina()+" "+cs.S.Mask()+"\n     "+cs.V.Gallina(cs.S)+"\n     "+resTerm(o.TypeErr, o.Type)+" "+
 		resTerm(o.WrapErr, o.Wrapped)+" "+lib.GBool(o.Inst)+" "+resTerm(o.BackErr, back), input)
 	for b, t := range o.Ffmt {
@@ -345,16 +406,29 @@ func (r *runner) finishStatic() {
 	}
 	// thorough tier: shards of at most maxCasesPerFile cases
 	all := r.ncf
-	for i := 0; i == 0 || i < len(all.Cases); i += maxCasesPerFile {
-		j := i + maxCasesPerFile
+	// shards of equal size, at most maxCasesPerFile (quick tier: two files of ~850 cases, checked in parallel)
+	const quickShard = 900
+	nShards := (len(all.Cases) + quickShard - 1) / quickShard
+	if len(all.Cases) > 4*quickShard {
+		nShards = (len(all.Cases) + maxCasesPerFile - 1) / maxCasesPerFile
+	}
+	if nShards < 1 {
+		nShards = 1
+	}
+	per := (len(all.Cases) + nShards - 1) / nShards
+	if per < 1 {
+		per = 1
+	}
+	for i := 0; i == 0 || i < len(all.Cases); i += per {
+		j := i + per
 		if j > len(all.Cases) {
 			j = len(all.Cases)
 		}
 		part := newNamedCasesFile()
 		part.Cases, part.Inputs = all.Cases[i:j], all.Inputs[i:j]
 		name := "cases_static"
-		if len(all.Cases) > maxCasesPerFile {
-			name = fmt.Sprintf("cases_static_%d", i/maxCasesPerFile)
+		if nShards > 1 {
+			name = fmt.Sprintf("cases_static_p%d", i/per)
 		}
 		ff := r.ffmt
 		r.shard = 0
